@@ -665,7 +665,12 @@ impl Stdfs {
                     )?;
                 }
 
-                // Copy over the file/link
+                // Copy over the file, an existing link at the destination is not a file (link exclusion)
+                if let Ok(meta) = fs::symlink_metadata(&dst_path) {
+                    if !meta.is_file() {
+                        return Err(PathError::is_not_file(&dst_path).into());
+                    }
+                }
                 fs::copy(src.path(), &dst_path)?;
 
                 // Optionally set new mode
